@@ -90,6 +90,25 @@ func registerSyncStubs() {
 		return fr.i.conc.syncOp(fr, "WaitGroup.Add", a[0].(*value), []value{int(-1)}), true
 	}
 
+	// sync.Once in a concurrent harness: one atomic test-and-set decides the
+	// winner, which then runs f; losers return at once (that they wait for the
+	// winner to finish is not modelled: a superset of the real behaviours).
+	externals["(*sync.Once).Do"] = func(fr *frame, a []value) (value, bool) {
+		if fr.i.tree == nil {
+			return nil, false // sequential harness: interpret the real code
+		}
+		o := a[0].(*value)
+		st := (*o).(structure)
+		cell := &st[0]
+		if _, isStruct := (*cell).(structure); isStruct {
+			inner := (*cell).(structure)
+			cell = &inner[len(inner)-1]
+		}
+		if fr.i.tree.cellOp(fr, "cas", cell, []value{uint32(0), uint32(1)}, false, "").(bool) {
+			call(fr.i, fr, token.NoPos, a[1], nil)
+		}
+		return nil, true
+	}
 	// sync.Pool: never retains anything
 	externals["(*sync.Pool).Put"] = noop
 	externals["(*sync.Pool).Get"] = func(fr *frame, a []value) (value, bool) {
